@@ -46,9 +46,10 @@ ASSUMPTIONS = [
     'tokens of the layout theorems contain no blank, "$" or "&", and a line '
     'never starts with a lone "c" token inside columns 1-5',
 ]
-HEADER = ('From Coq Require Import List NArith ZArith Bool String Ascii.\n'
+HEADER = ('From Coq Require Import List NArith ZArith Bool String Ascii Uint63.\n'
           'From T4V Require Import Base.Str C14.Model C14.Exec.\n'
-          'Open Scope string_scope.\n')
+          'Import ListNotations.\nOpen Scope string_scope.\n')
+FP_TYPE = 'N * string * N * string * string * int'
 
 
 def cs(s):
@@ -118,12 +119,11 @@ def run_exhaustive(res, tier):
     for name, fid, alpha, n, pre, suf in buckets:
         fp = I.fingerprint(fid, alpha, n, pre, suf)
         total += len(alpha) ** n
-        cases.append(cpair(cn(fid), cs(alpha), cn(n), cs(pre), cs(suf), cn(fp)))
+        cases.append(cpair(cn(fid), cs(alpha), cn(n), cs(pre), cs(suf), f'{fp}%uint63'))
         res.count('exhaustive:' + name, len(alpha) ** n)
     res.evaluations += total
     bad, errs = common.run_case_files('c14_fp', HEADER,
-                                      'N * string * N * string * string * N',
-                                      'check_fp', cases, chunk=8)
+                                      FP_TYPE, 'check_fp', cases, chunk=8)
     res.obligation(f'tie:exhaustive ({total} strings in {len(cases)} buckets, '
                    f'{len(EXHAUSTIVE)} domains: model = implementation by '
                    'fingerprint)', not bad and not errs,
